@@ -130,6 +130,19 @@ func main() {
 	sc.Buffer(make([]byte, 1<<20), 1<<24)
 	var e *dpadv.Env
 	r := vt.Rand(17)
+	var deferred []*dpadv.APkt
+	flush := func() {
+		if e == nil {
+			return
+		}
+		if d := 3100*time.Millisecond - time.Since(e.T0); d > 0 {
+			time.Sleep(d)
+		}
+		for _, a := range deferred {
+			doPacket(e, a, r)
+		}
+		deferred = nil
+	}
 	for sc.Scan() {
 		var l line
 		if err := json.Unmarshal(sc.Bytes(), &l); err != nil {
@@ -137,27 +150,38 @@ func main() {
 		}
 		switch {
 		case l.Cfg != nil:
+			flush()
 			e, err = dpadv.NewEnv(*l.Cfg, l.Auth, false)
 			if err != nil {
 				vt.Fatal("router: %v", err)
 			}
 			out.Emit(vt.M{"ev": "reset", "c": l.Cfg, "auth": l.Auth})
 		case l.P != nil:
-			doPacket(e, l.P, r)
-		case l.Rand > 0:
-			// hop fields that expired only after the router handled its first packet can be built
-			// once the router is 3 s old (see Build); wait for that at most once per router
-			if d := 3100*time.Millisecond - time.Since(e.T0); d > 0 {
-				time.Sleep(d)
+			// Packets with a to-be-expired hop field are run after the others of their router, once the
+			// router is certainly 3 s old: only then can Build make hop fields that expired AFTER the
+			// router handled its first packet (and at least 1.5 s ago).
+			expired := false
+			for _, h := range l.P.Hops {
+				expired = expired || h.Exp
 			}
+			if expired {
+				deferred = append(deferred, l.P)
+			} else {
+				doPacket(e, l.P, r)
+			}
+		case l.Rand > 0:
+			flush()
 			for i := 0; i < l.Rand; i++ {
 				a := dpadv.RandomPacket(e, r, l.MaxHops, l.Kinds)
 				doPacket(e, a, r)
 			}
 		case l.Ohp > 0:
+			flush()
 			dpadv.OhpJourneys(e, r, l.Ohp, out, emitPlain)
 		case l.Bfd > 0:
+			flush()
 			dpadv.BfdHistories(e.Cfg, r, l.Bfd, out, emitPlain)
 		}
 	}
+	flush()
 }
